@@ -3,13 +3,26 @@
 (* G06 (A) -- the DHCPv6 lease table, in the image of C10's Dhcp4.         *)
 (*                                                                         *)
 (* The module EXTENDS Dhcp4 and reuses its vocabulary unchanged: the table *)
-(* is ONE set `ls' of leases [mac, ip, st, ak, host], `disk' is the        *)
+(* is ONE set `ls' of leases [mac, ip, st, rem, host], `disk' is the       *)
 (* persisted table, replies are Offer (ADVERTISE carrying an address), Ack *)
 (* (REPLY carrying an address), Refuse (no address / no reply), AnyR, Ok,  *)
 (* Err; FreeAddrs / Recyclable / Allocs / DiscoverOut / ExpireOut /        *)
 (* ReleaseOut / RemoveStaticOut / Statics / UpdEnabled are Dhcp4's.  Only  *)
 (* what the DHCPv6 documentation states differently (or does not state) is *)
-(* written here.                                                           *)
+(* written here.  Relied upon from Dhcp4 (its interface as of this round): *)
+(*   constants  Macs, Pool, Outs, GW, Far, ReqHosts, BadHosts, StaticHosts, *)
+(*              MaxStatic, LeaseT; variables ls, disk, vars                *)
+(*   operators  Lease (constructor: the record's fields other than mac,    *)
+(*              ip, st, host are never touched here), Of, On, Held, Outc,  *)
+(*              Offer, Ack, Refuse, AnyR, Ok, Err, None, Allocs,           *)
+(*              DiscoverOut, ExpireOut, ReleaseOut, RemoveStaticOut,       *)
+(*              Statics, UpdEnabled, Gives, EncS                           *)
+(*   invariants OneHolderPerAddress, KeyedByAddress, OneLeasePerClient,    *)
+(*              DynamicInsidePool, RemBounded, BoundedStatics              *)
+(* Dhcp4's clock (lease field rem, Tick) is used with LeaseT = 1: a        *)
+(* dynamic lease is acknowledged-and-unexpired (rem = 1) or not (rem = 0); *)
+(* time passes through Expire only.  BadHosts is empty and ReqHosts {""}:  *)
+(* DHCPv6 clients send no host name.                                       *)
 (*                                                                         *)
 (* What the sources of the statement say about DHCPv6 (AGHTechDoc "For v6, *)
 (* if range_start = 2001::1, the last IP is 2001::ff"; config.go "The      *)
@@ -58,8 +71,8 @@ Request6Out(S, m, kind, a) ==
     ELSE LET l == CHOOSE x \in mine : TRUE IN
          IF l.st THEN {Outc(S, Ack(a))}
          ELSE IF kind = "confirm"
-              THEN {Outc(S, Ack(a))} \cup (IF l.ak THEN {} ELSE {Outc(S, Refuse)})
-              ELSE {Outc((S \ {l}) \cup {[l EXCEPT !.ak = TRUE]}, Ack(a))}
+              THEN {Outc(S, Ack(a))} \cup (IF Held(l) THEN {} ELSE {Outc(S, Refuse)})
+              ELSE {Outc((S \ {l}) \cup {Lease(m, a, FALSE, TRUE, l.host)}, Ack(a))}
 
 \* -------------------------------------------------------- RELEASE / DECLINE
 \* Dhcp4's RELEASE (the dynamic lease is dropped), or nothing at all (see the
@@ -164,7 +177,7 @@ Spec6 == Init6 /\ [][Next6]_vars
 \* ------------------------------------------- the statement, as invariants
 \* OneHolderPerAddress, KeyedByAddress, OneLeasePerClient, DynamicInsidePool
 \* (dynamic leases only inside range_start..::ff, never on a reserved
-\* address), StaticsHeld and BoundedStatics are Dhcp4's, evaluated on this
+\* address), RemBounded and BoundedStatics are Dhcp4's, evaluated on this
 \* module's histories.
 \*
 \* A client with a reservation is only ever given that address.
